@@ -14,6 +14,20 @@ AllLayers == {[k |-> "frag", tag |-> "small"], [k |-> "frag", tag |-> "huge"],
 FewLayers == {[k |-> "frag", tag |-> "huge"], [k |-> "mbapp", tag |-> "huge"],
               [k |-> "u16", c |-> M!Ones(16)], [k |-> "u64", c |-> M!Ones(64)],
               [k |-> "var", c |-> M!IntBits(128)], [k |-> "str", c |-> M!Name19], [k |-> "p2pke"]}
+\* mux layers with k in {2, 3} channels of DIFFERENT header lengths on the same mux, every channel as the one
+\* the stack continues on, every order of first use (TLC enumerates the permutations), every kind of first use
+VarChans == <<{}, M!IntBits(300), M!Bit(40)>>                        \* headers of 1, 2 and 6 bytes
+StrChans == <<Fill(1, 99), Fill(20, 99), Fill(200, 99)>>             \* headers of 2, 21 and 202 bytes
+IdxSeqs == {<<1, 2>>, <<1, 3>>, <<2, 3>>, <<1, 2, 3>>}
+Perms(n) == {p \in [1..n -> 1..n] : \A i, j \in 1..n : p[i] = p[j] => i = j}
+SibOf(kind, pool, uses) ==
+    {[k |-> kind, chans |-> [j \in 1..Len(ix) |-> pool[ix[j]]], own |-> o, ord |-> p, use |-> u] :
+        ix \in IdxSeqs, o \in 1..3, p \in Perms(2) \cup Perms(3), u \in uses}
+SibFilter(S) == {t \in S : t.own <= Len(t.chans) /\ Len(t.ord) = Len(t.chans)}
+SibLayers == SibFilter(SibOf("var", VarChans, {"mtu", "tell", "ask"}) \cup SibOf("str", StrChans, {"mtu", "tell", "ask"}))
+SibLayersMtu == SibFilter(SibOf("var", VarChans, {"mtu"}) \cup SibOf("str", StrChans, {"mtu"}))
+NoLayers == {}
+MtuSib == {64, 576}
 MtuSet == {64, 100, 576, 1280, 65536}
 MtuSet3 == {64, 576, 65536}
 \* small enough that mbapp's 16-bit part count limits MTU() to 65535 / 131070 bytes
